@@ -77,15 +77,22 @@ class Builder:
             kw = {}
             if sub.get("role"):
                 kw["role"] = getattr(self.bundle(sub["of"]).roles, sub["role"])
-            bi = self.bundle(sub["of"])(**kw)
-            if sub.get("flipped"):
-                if sub.get("flipstyle") == "fn":
-                    bi = h.flipped(bi)
-                else:
-                    bi = self.bundle(sub["of"])(flipped=True, **kw)
+            bi = self.flip_instance(sub["of"], kw, sub)
             b.add(bi, name=sub["n"])
         self.bundles[name] = b
         return b
+
+    def flip_instance(self, of, kw, rec):
+        """A bundle instance, flipped by the recorded steps: 'ctor' = constructor flag, 'fn' = hdl21.flipped() (each toggles)."""
+        h = self.h
+        steps = [x for x in (rec.get("flipstyle") or "").split("+") if x in ("ctor", "fn")]
+        if not steps and rec.get("flipped"):
+            steps = ["ctor"]
+        bi = self.bundle(of)(flipped=True, **kw) if "ctor" in steps else self.bundle(of)(**kw)
+        for x in steps:
+            if x == "fn":
+                bi = h.flipped(bi)
+        return bi
 
     def leaf(self, ref):
         if ref in self.leaves:
@@ -189,10 +196,7 @@ class Builder:
             kw = {"port": b["port"]}
             if b.get("role"):
                 kw["role"] = getattr(self.bundle(b["of"]).roles, b["role"])
-            bi = self.bundle(b["of"])(**kw)
-            if b.get("flipped"):
-                bi = h.flipped(bi) if b.get("flipstyle") == "fn" else self.bundle(b["of"])(flipped=True, **kw)
-            ns[b["n"]] = bi
+            ns[b["n"]] = self.flip_instance(b["of"], kw, b)
         insts = {}
         for i in md["insts"]:
             tgt = self.target(i["of"])
